@@ -30,7 +30,7 @@ RULE = ('one evaluation = one simulated run of a sampled full-API workload (1 cl
         'operation in the thorough tier and sampled in the quick tier; non-trivial = a fault fired or clients interleaved; '
         'distinct = SHA-256 of the seam event log')
 ASSUMPTIONS = ['one failure per run (fault pairs are not explored)', 'if the injected failure is the unlink itself, that one file may remain (stated allowance)']
-PROBES = ('sqlerr', 'oserr', 'commit_failed', 'unencodable', 'stream_error', 'timeout_seen', 'block_aborted', 'bad_argument')
+PROBES = ('sqlerr', 'oserr', 'commit_failed', 'unencodable', 'stream_error', 'timeout_seen', 'block_aborted', 'bad_argument', 'interrupt')
 TECHNIQUE = 'deterministic simulation with single-fault enumeration: n-th statement / n-th file call failure over all n of sampled workloads; independent directory auditor + check() at quiescence'
 LEVEL_TEXT = ('fault enumeration: workloads are sampled by seed; within a workload the single failure point is enumerated over all SQL '
               'statements and file-system calls of every operation (thorough tier), so for that workload the single-fault quantifier is '
@@ -273,6 +273,8 @@ def run_case(case):
         pr['sqlerr'] = 1
     if out['fired'].get('oserr'):
         pr['oserr'] = 1
+    if out['fired'].get('interrupt'):
+        pr['interrupt'] = 1
     out['unlink_faults'] = None
     return dict(base, violations=violations, probes=pr,
                 nontrivial=bool(out['fired']) or out['switches'] > 0 or bool(probes),
@@ -294,6 +296,7 @@ def _swallowed_suffix(case, out):
 
 
 def _unlink_faulted(out, relpath):
+    # an unlink that failed - or was interrupted, which also skips the unlinks queued behind it - leaves files that no row names
     return any(k.startswith('oserr:remove') for k in out.get('fired', {}))
 
 
@@ -343,7 +346,7 @@ def run_seed(seed, tier):
                             'msg': rng.choice(('disk I/O error', 'database or disk is full'))}]
         else:
             c['faults'] = [{'f': 'oserr', 'task': task, 'op': i, 'n': n, 'calls': FS_CALLS,
-                            'errno': rng.choice(('ENOSPC', 'EIO', 'EACCES', 'EMFILE', 'EEXIST'))}]
+                            'errno': rng.choice(('ENOSPC', 'EIO', 'EACCES', 'EMFILE', 'EEXIST', 'INTERRUPT'))}]
         r = runner_guarded(PROPERTY, run_case, copy.deepcopy(c))
         r.pop('counts', None)
         r['case'] = c
